@@ -537,7 +537,8 @@ macros[Profiles.CSS_LEVEL_2] = {
     'specific-voice': r'{ident}',
     'generic-voice': r'male|female|child',
     'content': r'{string}|{uri}|{counter}|attr\({w}{ident}{w}\)|open-quote|close-quote|no-open-quote|no-close-quote',
-    'background-attrs': r'{background-color}|{background-image}|{background-repeat}|{background-attachment}|{background-position}',
+    # a position of two components is two of these: one component per item keeps the match unambiguous
+    'background-attrs': r'{background-color}|{background-image}|{background-repeat}|{background-attachment}|{percentage}|{length}|left|center|right|top|bottom',
     'list-attrs': r'{list-style-type}|{list-style-position}|{list-style-image}',
     'font-attrs': r'{font-style}|{font-variant}|{font-weight}',
     'text-attrs': r'underline|overline|line-through|blink',
